@@ -34,7 +34,7 @@ RULE = ('random model specs (DAGs and partially cyclic graphs, nested groups, co
 MIN_JUDGED = {'quick': 300, 'thorough': 6000}
 REQUIRED_COUNTERS = ['obs:trace-edge-checks', 'obs:residual-checks', 'obs:value-checks', 'obs:reordered-groups',
                      'obs:scc-order-checks', 'obs:acyclic-models', 'obs:cyclic-models', 'obs:nested-groups',
-                     'obs:judged-after-second-setup']
+                     'obs:judged-after-second-setup', 'obs:judged-after-connections-added-between-setups']
 ASSUMPTIONS = ['the predecessor relation is the spec connection graph; R (omv/ref/flatmodel.py) gives the exact values',
                'cyclic specs: only ordering is judged (values are C01/C04 territory), and only when setup succeeds',
                'Problem option allow_post_setup_reorder is left at its default (True)']
@@ -104,18 +104,43 @@ def run_case(case, acc):
     fp = fingerprint([spec['tree'], cedges, tree_solvers(spec)])
     with FailureMonitor() as fmon:
         try:
-            prob = G.build(spec, hook=hook)
-            prob.setup()
-            prob.final_setup()
             resetup = case['seed'] % 3 == 0
+            # history with a connection set that grows between the two setups: some explicit connect() calls are
+            # only issued after the first setup/run (the groups persist, anything they remember about the first
+            # setup's connections must not be used for the second ordering)
+            grow = resetup and case['seed'] % 2 == 0
+            defer = None
+            if grow:
+                cand = [cn['tgt'] for cn in spec['conns'] if cn['how'] == 'connect']
+                rg = random.Random(case['seed'] * 31 + 7)
+                defer = set(t for t in cand if rg.random() < 0.5) or set(cand[:1])
+                if not defer:
+                    grow = False
+            prob = G.build(spec, hook=hook, defer=defer)
             if resetup:
                 # history: the judged run is the one after a SECOND setup of the same problem object (the
                 # groups persist across setups; positions recorded by the first reordering must not be taken
                 # for the declared ones)
-                prob.run_model()
+                try:
+                    prob.setup()
+                    prob.final_setup()
+                    prob.run_model()
+                except Exception:
+                    if not grow:
+                        raise
+                    # the partially connected model of the first phase is not the judged one
+                    acc.count('obs:first-phase-of-growing-history-raised')
+                for thunk in prob._omv_deferred:
+                    thunk()
+                fmon.clear()
                 prob.setup()
                 prob.final_setup()
                 acc.count('obs:judged-after-second-setup')
+                if grow:
+                    acc.count('obs:judged-after-connections-added-between-setups')
+            else:
+                prob.setup()
+                prob.final_setup()
             del trace[:]
             prob.run_model()
         except Exception as e:
@@ -246,6 +271,8 @@ def run_case(case, acc):
     tag = 'cyclic' if really_cyclic else ('acyclic' if runonce else 'acyclic-iterative')
     if resetup:
         tag += ':after-second-setup'
+    if grow:
+        tag += ':connections-added-between-setups'
     if bad:
         firstv = True
         seen = set()
